@@ -230,6 +230,12 @@ static void rc_all(bool thorough)
                 a_lpf_init(&lp, (a_real)al);
                 a_lpf_init(&lq, (a_real)al);
                 a_hpf_init(&hp, (a_real)al);
+                // the same word at a tiny amplitude (a power of two, so the scaling is exact): a linear filter has no amplitude threshold
+                const a_real SC = (a_real)std::ldexp(1.0, EPS == (double)FLT_EPSILON ? -60 : -300);
+                a_lpf lps;
+                a_hpf hps;
+                a_lpf_init(&lps, (a_real)al);
+                a_hpf_init(&hps, (a_real)al);
                 long double lo = 0, hi = 0, lref = 0, href = 0, xprev = 0;
                 std::string in = "{\"alpha\":" + num(al) + ",\"word\":\"";
                 for (int k = 0; k < depth; ++k) { in += std::to_string(idx[(size_t)k]); }
@@ -250,6 +256,9 @@ static void rc_all(bool thorough)
                     if (std::fabs((double)((long double)l - lref)) > tol) { R.viol("lpf|equation", "low-pass output " + num((double)l) + " is not (1-alpha)*previous + alpha*x = " + num((double)lref), in); break; }
                     if (l2 != l) { R.viol("lpf|cxx-operator", "a_lpf::operator() and a_lpf_iter disagree", in); break; }
                     if (std::fabs((double)((long double)h - href)) > tol) { R.viol("hpf|equation", "high-pass output " + num((double)h) + " is not alpha*(previous + x - x_prev) = " + num((double)href), in); break; }
+                    a_real ls = a_lpf_iter(&lps, (a_real)x * SC), hs = a_hpf_iter(&hps, (a_real)x * SC);
+                    if (ls != l * SC) { R.viol("lpf|scaling", "the low-pass response to the word scaled by 2^-k is not the scaled response (" + num((double)ls) + " vs " + num((double)(l * SC)) + ")", in); break; }
+                    if (hs != h * SC) { R.viol("hpf|scaling", "the high-pass response to the word scaled by 2^-k is not the scaled response (" + num((double)hs) + " vs " + num((double)(h * SC)) + ")", in); break; }
                 }
             }
             int k = depth - 1;
